@@ -104,6 +104,14 @@ func cmdRun(args []string) int {
 	e := newExplorer(P, fn, cfg)
 	e.Run()
 	e.summary(os.Stdout, time.Since(t0))
+	if os.Getenv("SYMGO_STUBS") != "" {
+		var names []string
+		for n, c := range e.stubs {
+			names = append(names, fmt.Sprintf("%s x%d", n, c))
+		}
+		sort.Strings(names)
+		fmt.Println("  stubs hit:\n    " + strings.Join(names, "\n    "))
+	}
 	if branchStats != nil {
 		type kv struct {
 			k string
